@@ -197,7 +197,7 @@ static void lifecycle(vf::Ctx& c, int kind, int body, uint64_t pattern)
 {
 	std::string how = setDelays(c, pattern);
 	sched::reset_trace();
-	static const char* KN[] = {"subclass start/join", "lambda thread", "parallel_invoke(2)", "parallel_invoke(3)", "parallel_invoke(4)", "ThreadGroup", "two lambda threads", "subclass restarted", "subclass restarted after finished() was seen, no join() in between", "parallel_invoke(3) whose last function starts a Thread that outlives the call"};
+	static const char* KN[] = {"subclass start/join", "lambda thread", "parallel_invoke(2)", "parallel_invoke(3)", "parallel_invoke(4)", "ThreadGroup", "two lambda threads", "subclass restarted", "subclass restarted after finished() was seen, no join() in between", "parallel_invoke(3) whose last function starts a Thread that outlives the call", "creator spins on finished() with nothing else in the loop"};
 	c.desc(vf::fmt("%s, body %d, %s", KN[kind], body, how.c_str()));
 	std::atomic<int> runs(0);
 	int out[8] = {0};
@@ -241,6 +241,14 @@ static void lifecycle(vf::Ctx& c, int kind, int body, uint64_t pattern)
 			g.start();
 			g.join();
 			for (int i = 0; i < n; i++) if (!g._threads[i].finished()) c.fail("threadgroup.finished-false-after-join", vf::fmt("member %d", i));
+			if (runs != n) c.fail("threadgroup.run-count", vf::fmt("%d members, %d executions", n, (int)runs));
+			if (c.rng.chance(0.4)) {   // the same group started and joined a second time
+				g.start();
+				g.join();
+				if (runs != 2 * n) c.fail("threadgroup.run-count", vf::fmt("%d members started a second time, %d executions in total", n, (int)runs));
+				runs = n;
+				c.count("threadgroups_started_twice");
+			}
 		}
 		if (runs != n) c.fail("threadgroup.run-count", vf::fmt("%d members, %d executions", n, (int)runs));
 		for (int i = 0; i < n; i++) if (out[i] != 100 + i) c.fail("threadgroup.effect-not-visible-after-join", vf::fmt("member %d", i));
@@ -264,6 +272,19 @@ static void lifecycle(vf::Ctx& c, int kind, int body, uint64_t pattern)
 		w.join();
 		if (runs != 2 || out[0] != 8) c.fail("thread.run-count", vf::fmt("started twice, %d executions, out %d", (int)runs, out[0]));
 		if (!w.finished()) c.fail("thread.finished-false-after-join", "restarted thread");
+		break;
+	}
+	case 10: {
+		// a creator that polls finished() in a loop without any call in it (as the library's own hand-over loops do) sees it become true;
+		// the loop is bounded so that a flag the compiler keeps in a register shows up as a failed check, not as a hang
+		Worker w(&runs, &out[0], 3, body);
+		w.start();
+		long spins = 0;
+		while (!w.finished() && spins < 4000000000L) spins++;
+		bool saw = w.finished();
+		w.join();
+		if (!saw) c.fail("thread.finished-never-seen-by-spinning-creator", vf::fmt("%ld iterations", spins));
+		if (runs != 1 || out[0] != 3) c.fail("thread.run-count", vf::fmt("%d executions", (int)runs));
 		break;
 	}
 	case 9: {
@@ -308,11 +329,11 @@ static void lifecycle(vf::Ctx& c, int kind, int body, uint64_t pattern)
 static void mode_lifecycle(vf::Ctx& c)
 {
 	// systematic: kind x body x delay pattern
-	int kind = (int)(c.idx % 10), body = (int)((c.idx / 10) % 4);
-	uint64_t pat = (c.idx / 40) % 130;
+	int kind = (int)(c.idx % 11), body = (int)((c.idx / 11) % 4);
+	uint64_t pat = (c.idx / 44) % 130;
 	if (kind == 9 && (body != 0 || pat % 8 != 0)) kind = 2;   // the 80 ms scenario runs for one body and every 8th delay pattern only   // 0, masks 1..127, 128/129 = random jitter
 #if defined(__SANITIZE_THREAD__)
-	if (kind == 8) kind = 7;
+	if (kind == 8 || kind == 10) kind = 7;   // both read finished() while the thread may still be writing it
 #endif
 	int reps = (int)c.opt->param("reps", 3);
 	for (int r = 0; r < reps; r++) { lifecycle(c, kind, body, pat); c.evals(1); }
@@ -412,8 +433,11 @@ static void cond_handshake(vf::Ctx& c)
 	int N = nTimed + nPlain;
 	double tmo = 8.0;
 	c.desc(vf::fmt("condition handshake: %d waiters in wait(%g s), %d in wait(), one signal once all are waiting", nTimed, tmo, nPlain));
-	Mutex mutex;
-	Condition cond(mutex);
+	Mutex mutex, other;
+	// a third of the handshakes bind the condition to another mutex first and then to the one the protocol uses
+	int bind = (int)c.rng.below(3);
+	Condition cond(bind == 2 ? other : mutex);
+	if (bind == 2) { cond.use(mutex); c.count("cond_handshakes_with_rebound_mutex"); }
 	int waiting = 0;        // protected by mutex
 	bool go = false;        // protected by mutex
 	std::atomic<int> wokenBySignal(0), timedOut(0), left(0);
